@@ -358,15 +358,17 @@ stage("gammatone", params=lambda W: {"k": W.pick("k", ["klapuri", "slaney",
 # ---------------------------------------------------------- analysis tools
 stage("maverage", params=lambda W: {"k": W.pick("k", ["deque", "recursive",
                                                       "fir"]),
-                                    "n": W.span("n", 1, 5)})(
+                                    "n": W.pick("n", [1, 2, 3, 4, 5, 16,
+                                                      33])})(
   (lambda P, i, p: P.la.maverage[p["k"]](p["n"])(i[0]),
    lambda i, p: M.m_each(i)))
 stage("envelope", params=lambda W: {"k": W.pick("k", ["rms", "abs",
                                                       "squared"])})(
   (lambda P, i, p: P.la.envelope[p["k"]](i[0], cutoff=.2),
    lambda i, p: M.m_each(i)))
-stage("amdf", params=lambda W: {"lag": W.span("lag", 1, 4),
-                                "n": W.span("n", 1, 4)})(
+stage("amdf", params=lambda W: {"lag": W.pick("lag", [1, 2, 3, 4, 8, 9, 16,
+                                                      20]),
+                                "n": W.pick("n", [1, 2, 3, 4, 8, 12])})(
   (lambda P, i, p: P.la.amdf(p["lag"], p["n"])(i[0]),
    lambda i, p: M.m_each(i)))
 stage("clip", params=lambda W: {"k": W.choose("k", 4)})(
@@ -775,7 +777,7 @@ stage("envelope_stream_cutoff", extra=("param",),
       params=lambda W: {"k": W.pick("k", ["rms", "abs", "squared"])})(
   (lambda P, i, p: P.la.envelope[p["k"]](i[0], cutoff=S(P, i[1])),
    lambda i, p: M.m_lockstep(i)))
-stage("comb_tau", params=lambda W: {"d": W.span("d", 1, 3)})(
+stage("comb_tau", params=lambda W: {"d": W.pick("d", [1, 2, 3, 16, 25])})(
   (lambda P, i, p: P.lf.comb.tau(p["d"], 30.)(i[0]),
    lambda i, p: M.m_each(i)))
 stage("erb", params=lambda W: {"k": W.pick("k", ["gm90", "mg83"])})(
